@@ -135,6 +135,8 @@ class SuitDigestExt(PrettyPrintHelperMixin):
         #  additional suit-digest-bytes key which is not supported by suit-text (SuitTextMap)
         if not isinstance(obj, dict):
             raise ValueError(f"Expected dict, received: {type(obj)} for:\n{cls.pretty_format_obj(obj)}")
+        # the digest is filled into a copy: the description of the caller keeps its reference to the file
+        obj = dict(obj)
         if suit_digest_algorithm_id.name not in obj.keys():
             cls(SuitDigestRaw.from_obj(obj))
         if suit_digest_bytes.name not in obj.keys():
